@@ -9,6 +9,8 @@
 import DropletsVerif.Lemmas.RealInst
 import DropletsVerif.Generated.Scales
 import Mathlib.Tactic
+import Mathlib.Algebra.BigOperators.Field
+import Mathlib.Algebra.Order.BigOperators.Ring.Finset
 
 
 namespace DV.C17
@@ -75,6 +77,43 @@ theorem mean_length_field_scale (c : ℝ) (hc : c ≠ 0) (ks sfs : List ℝ) :
   · simp [h]
   · field_simp
 
+/-- **For a spectrum carried by one shell of wave numbers** — a plane wave: by `DV.C16.plane_wave_support` its structure factor
+vanishes off the two wave vectors `±k₀`, which by `DV.C16.fftRep_neg` have the same modulus — **the moment formula returns
+exactly the wavelength `2π/|k₀|`**, whatever the amplitude, offset, phase and grid spacing.  This is a statement about the formula on the RAW
+spectrum (`get_structure_factor(smoothing=None)`; checked on the real code for every generated plane wave).  `get_length_scale` applies the same
+formula to the SMOOTHED spectrum (default smoothing `"auto"`), which spreads the two peaks: there the value is biased (observed 17.9 for a
+wavelength of 16 cells, 16 cells per box) — the property claims plane-wave accuracy only for the peak-based and the counting method. -/
+theorem mean_length_single_shell (k0 : ℝ) (ks sfs : List ℝ)
+    (h : ∀ p ∈ ks.zip sfs, p.2 ≠ 0 → p.1 = k0) (hlen : sfs.length ≤ ks.length) (hs : lsum sfs ≠ 0) (hk : k0 ≠ 0) :
+    mean_length ks sfs = 2 * Real.pi / k0 := by
+  have key : ∀ (ks sfs : List ℝ), (∀ p ∈ ks.zip sfs, p.2 ≠ 0 → p.1 = k0) → sfs.length ≤ ks.length →
+      ((ks.zip sfs).map fun p => p.1 * p.2).sum = k0 * sfs.sum := by
+    intro ks
+    induction ks with
+    | nil => intro sfs _ hl; cases sfs with
+      | nil => simp
+      | cons y ys => simp at hl
+    | cons x xs ih =>
+      intro sfs h hl
+      cases sfs with
+      | nil => simp
+      | cons y ys =>
+        have hx : x * y = k0 * y := by
+          by_cases hy : y = 0
+          · simp [hy]
+          · have hxk : x = k0 := h (x, y) (by simp) hy
+            rw [hxk]
+        have := ih ys (fun p hp => h p (by simp [hp])) (by simpa using hl)
+        simp only [List.zip_cons_cons, List.map_cons, List.sum_cons, this, hx]; ring
+  simp only [mean_length, dnum_lit, dnum_pi]
+  rw [ldot_eq, key ks sfs h hlen, ← lsum_eq]
+  push_cast
+  field_simp
+
+/-- non-vacuity: two peaks at |k| = 3 among four wave numbers -/
+example : mean_length ([1, 3, 3, 5] : List ℝ) [0, 2, 2, 0] = 2 * Real.pi / 3 :=
+  mean_length_single_shell 3 _ _ (by simp) (by simp) (by simp [lsum]) (by norm_num)
+
 /-! ### peak-based method -/
 
 /-- the length is `2π / k*` for the maximiser `k*`, so it stretches with the grid when `k* ↦ k*/λ` -/
@@ -105,6 +144,127 @@ theorem max_covariant_if_sigma_covariant (lam : ℝ) (hl : 0 < lam) (S S' : ℝ 
       rwa [mul_div_assoc, div_self hl.ne', mul_one] at this
     rw [h1, hcov k0]
     exact hmax _
+
+section peak
+open Finset BigOperators
+/-- the kernel smoother of the peak method (`pde.tools.math.SmoothData1D.__call__`): weights `K(q − k_i)`, normalised when their sum is
+positive (otherwise they are all zero and so is the result) -/
+noncomputable def nwSmooth {ι : Type} [Fintype ι] (K : ℝ → ℝ) (k s : ι → ℝ) (q : ℝ) : ℝ :=
+  if 0 < ∑ i, K (q - k i) then (∑ i, s i * K (q - k i)) / ∑ i, K (q - k i) else 0
+
+/-- a weighted average that reaches the level `v > 0` has a contributing sample at that level: wherever the smoothed structure factor is at
+least `v`, a raw sample with value at least `v` lies within the reach `ρ` of the kernel -/
+theorem nwSmooth_ge_has_sample {ι : Type} [Fintype ι] (K : ℝ → ℝ) (hK : ∀ x, 0 ≤ K x) (ρ : ℝ) (hsupp : ∀ x, ρ ≤ |x| → K x = 0)
+    (k s : ι → ℝ) (q v : ℝ) (hv : 0 < v) (h : v ≤ nwSmooth K k s q) :
+    ∃ i, |q - k i| < ρ ∧ v ≤ s i := by
+  unfold nwSmooth at h
+  split_ifs at h with hw
+  · by_contra hno
+    push Not at hno
+    have hterm : ∀ i, s i * K (q - k i) ≤ v * K (q - k i) := by
+      intro i
+      by_cases hr : |q - k i| < ρ
+      · exact mul_le_mul_of_nonneg_right (hno i hr).le (hK _)
+      · rw [hsupp _ (not_lt.mp hr)]; simp
+    have hstrict : ∑ i, s i * K (q - k i) < ∑ i, v * K (q - k i) := by
+      obtain ⟨j, -, hj⟩ := Finset.exists_lt_of_sum_lt (s := Finset.univ) (f := fun _ => (0 : ℝ)) (g := fun i => K (q - k i)) (by simpa using hw)
+      apply Finset.sum_lt_sum (fun i _ => hterm i)
+      refine ⟨j, Finset.mem_univ j, ?_⟩
+      have hr : |q - k j| < ρ := by
+        by_contra hr
+        rw [hsupp _ (not_lt.mp hr)] at hj; exact lt_irrefl _ hj
+      exact mul_lt_mul_of_pos_right (hno j hr) hj
+    rw [← Finset.mul_sum] at hstrict
+    have : (∑ i, s i * K (q - k i)) / ∑ i, K (q - k i) < v := by
+      rw [div_lt_iff₀ hw]; exact hstrict
+    linarith
+  · linarith
+
+/-- **The peak of a plane wave is found within the reach of the kernel.**  Raw spectrum: the value `s₀ > 0` on the shell `|k| = k₀` and
+below `s₀` everywhere else except at the prepended zero mode (`add_zero=True`: the pair (0, 1)); `x` any point that the maximiser returns with
+`S(x) ≥ s₀ = S(k₀)` (it does not return a point worse than the centre of its bracket) and away from zero.  Then `|x − k₀| < ρ`: with the default
+smoothing (σ = 10⁻³ Fourier bins; in double precision the Gaussian weights vanish beyond 38.6 σ) that is 0.04 bins — well within the half bin the
+property asks for, for any grid spacing. -/
+theorem peak_plane_wave_within_reach {ι : Type} [Fintype ι] (K : ℝ → ℝ) (hK : ∀ x, 0 ≤ K x) (ρ : ℝ) (hsupp : ∀ x, ρ ≤ |x| → K x = 0)
+    (k s : ι → ℝ) (k0 s0 : ℝ) (hs0 : 0 < s0) (hshell : ∀ i, s0 ≤ s i → k i = k0 ∨ k i = 0)
+    (x : ℝ) (hx : ρ ≤ x) (hbest : s0 ≤ nwSmooth K k s x) : |x - k0| < ρ := by
+  obtain ⟨i, hi, hsi⟩ := nwSmooth_ge_has_sample K hK ρ hsupp k s x s0 hs0 hbest
+  rcases hshell i hsi with h | h
+  · rwa [h] at hi
+  · rw [h, sub_zero] at hi
+    have : |x| = x := abs_of_nonneg (le_trans (by
+      by_contra hneg; push Not at hneg
+      have := hsupp 0 (by simpa using hneg.le)
+      have h0 := hi; rw [abs_lt] at h0; linarith) hx)
+    rw [this] at hi; linarith
+
+/-- non-vacuity: samples (0, 1), (5, ½), (6, 0) — zero mode, plane-wave shell, a neighbour — box kernel of reach ¼: the smoothed value at 5.1
+is the shell's ½, and the theorem places 5.1 within ¼ of the shell -/
+example : |(5.1 : ℝ) - 5| < 1 / 4 := by
+  refine peak_plane_wave_within_reach (ι := Fin 3) (fun x => if |x| < 1 / 4 then 1 else 0) (fun x => by positivity) (1 / 4)
+    (fun x hx => if_neg (not_lt.mpr hx)) ![0, 5, 6] ![1, 1 / 2, 0] 5 (1 / 2) (by norm_num) ?_ 5.1 (by norm_num) ?_
+  · intro i; fin_cases i <;> simp <;> norm_num
+  · have h0 : ¬ |(5.1 : ℝ) - 0| < 1 / 4 := by rw [abs_lt]; norm_num
+    have h1 : |(5.1 : ℝ) - 5| < 1 / 4 := by rw [abs_lt]; norm_num
+    have h2 : ¬ |(5.1 : ℝ) - 6| < 1 / 4 := by rw [abs_lt]; norm_num
+    have e0 : (![0, 5, 6] : Fin 3 → ℝ) 0 = 0 := rfl
+    have e1 : (![0, 5, 6] : Fin 3 → ℝ) 1 = 5 := rfl
+    have e2 : (![0, 5, 6] : Fin 3 → ℝ) 2 = 6 := rfl
+    have f0 : (![1, 1 / 2, 0] : Fin 3 → ℝ) 0 = 1 := rfl
+    have f1 : (![1, 1 / 2, 0] : Fin 3 → ℝ) 1 = 1 / 2 := rfl
+    have f2 : (![1, 1 / 2, 0] : Fin 3 → ℝ) 2 = 0 := rfl
+    simp only [nwSmooth, Fin.sum_univ_three, e0, e1, e2, f0, f1, f2, if_neg h0, if_pos h1, if_neg h2]
+    norm_num
+
+/-- the Gaussian kernel of `SmoothData1D`: `exp(−x² / (2σ²))` (written as the code does: `exp(−(0.5 σ⁻²) x²)`) -/
+noncomputable def gauss (σ x : ℝ) : ℝ := Real.exp (-(0.5 * (σ ^ 2)⁻¹) * x ^ 2)
+
+/-- **The smoother is covariant under stretching the grid**: wave numbers, evaluation point and smoothing width all divided by `λ` give the
+same smoothed value — so the covariance hypothesis `hcov` of `max_covariant_if_sigma_covariant` is a theorem about `SmoothData1D`'s formula,
+not an assumption -/
+theorem nwSmooth_gauss_covariant {ι : Type} [Fintype ι] (lam σ : ℝ) (hl : lam ≠ 0) (k s : ι → ℝ) (q : ℝ) :
+    nwSmooth (gauss (σ / lam)) (fun i => k i / lam) s (q / lam) = nwSmooth (gauss σ) k s q := by
+  have hK : ∀ i, gauss (σ / lam) (q / lam - k i / lam) = gauss σ (q - k i) := by
+    intro i
+    unfold gauss
+    congr 1
+    by_cases hσ : σ = 0
+    · simp [hσ]
+    · field_simp
+  unfold nwSmooth
+  simp only [hK]
+
+/-- with the DEFAULT smoothing width (regenerated `default_sigma`, a wave number since the repair of D10) the smoothed structure factor of the
+stretched grid is the original one read at `q/λ` -/
+theorem peak_smoothing_default_covariant {ι : Type} [Fintype ι] (lam L dx : ℝ) (hl : lam ≠ 0) (hL : L ≠ 0) (k s : ι → ℝ) (q : ℝ) :
+    nwSmooth (gauss (default_sigma (lam * L) (lam * dx))) (fun i => k i / lam) s (q / lam)
+      = nwSmooth (gauss (default_sigma L dx)) k s q := by
+  rw [default_sigma_covariant lam L dx hl hL]
+  exact nwSmooth_gauss_covariant lam _ hl k s q
+
+/-- multiplying the structure factor by a constant multiplies the smoothed curve by it: for `c > 0` the maximiser does not move -/
+theorem nwSmooth_scale {ι : Type} [Fintype ι] (K : ℝ → ℝ) (c : ℝ) (k s : ι → ℝ) (q : ℝ) :
+    nwSmooth K k (fun i => c * s i) q = c * nwSmooth K k s q := by
+  unfold nwSmooth
+  split_ifs
+  · rw [← mul_div_assoc, Finset.mul_sum]; congr 1; apply Finset.sum_congr rfl; intro i _; ring
+  · simp
+
+/-- **The peak method stretches with the grid** (default smoothing, any spectrum): if `k₀` maximises the smoothed structure factor of the
+original grid, `k₀/λ` maximises that of the grid stretched by `λ > 0`, and the reported length is `λ` times the original one -/
+theorem peak_method_covariant {ι : Type} [Fintype ι] (lam L dx : ℝ) (hl : 0 < lam) (hL : L ≠ 0) (k s : ι → ℝ) (k0 : ℝ) (hk0 : k0 ≠ 0)
+    (hmax : ∀ q, nwSmooth (gauss (default_sigma L dx)) k s q ≤ nwSmooth (gauss (default_sigma L dx)) k s k0) :
+    (∀ q, nwSmooth (gauss (default_sigma (lam * L) (lam * dx))) (fun i => k i / lam) s q
+        ≤ nwSmooth (gauss (default_sigma (lam * L) (lam * dx))) (fun i => k i / lam) s (k0 / lam)) ∧
+    peak_length (k0 / lam) = lam * peak_length k0 := by
+  have h := max_covariant_if_sigma_covariant lam hl (nwSmooth (gauss (default_sigma L dx)) k s)
+    (nwSmooth (gauss (default_sigma (lam * L) (lam * dx))) (fun i => k i / lam) s)
+    (fun q => peak_smoothing_default_covariant lam L dx hl.ne' hL k s q) k0 hmax
+  rcases h with h | h
+  · exact h
+  · exact absurd h hk0
+
+end peak
 
 /-! ### droplet-counting method -/
 
